@@ -164,7 +164,7 @@ def main():
     t0 = time.time()
     with cf.ThreadPoolExecutor(12) as ex: pres = list(ex.map(run_job, pjobs))
     c.step("impl:planner-costs", "%s CRUN ... (%d runs x 3 solves)" % (cdrv, len(pjobs)), time.time() - t0, True)
-    pstats = collections.Counter(); pfail = collections.Counter(); plines = []; pmeta = []
+    pstats = collections.Counter(); pfail = collections.Counter(); plines = []; pmeta = []; costcases = []
     def ppred(j, msg, slug=None):
         nonlocal npred, first_pred
         if slug and c.known_finding(slug, msg + " ('%s')" % j): pstats["known:" + slug] += 1; return
@@ -184,6 +184,8 @@ def main():
             plines.append("N"); 
             for s_ in cur: plines.append("ADD %d %d %d %d %d %d" % (s_["approx"], max(s_["diff"], 0) if s_["approx"] else 0, s_["opt"], kind if s_["hasopt"] else 0, s_["stored"] if s_["hasopt"] else 0, s_["len"]))
             pmeta.append((j, k, [dict(x) for x in cur]))
+            for si_, s_ in enumerate(cur):
+                if "raw" in s_ and all(x in s_["raw"] for x in ("PTS", "SC", "TRUE")): costcases.append((j, k, si_, s_["raw"]))
             top = cur[0]
             if top["hasopt"] and not top["approx"]:
                 if best_prev is not None and ((kind == 1 and top["stored"] > best_prev + max(1000, best_prev // 10 ** 7)) or (kind == 2 and top["stored"] < best_prev - 1000)):
@@ -195,6 +197,8 @@ def main():
             if t[0] == "SOLVE":
                 if cur: flush(int(t[1]) - 1)
                 cur = []
+            elif t[0] in ("PTS", "SC", "MM", "TRUE") and cur:
+                rec = cur[-1].setdefault("raw", {}); rec[t[0]] = l
             elif t[0] == "SOL":
                 s_ = dict(approx=int(t[2]), diff=int(t[3]), opt=int(t[4]), hasopt=int(t[5]), stored=int(t[6]), true=int(t[7]), len=int(t[8]), lower=int(t[9]), sat=int(t[10]))
                 cur.append(s_); pstats["solutions"] += 1
@@ -222,6 +226,56 @@ def main():
             if iranks != mranks and not mixed:
                 ndiff += 1
                 if first_diff is None: first_diff = ([], "planner solution set of '%s' solve %d: implementation ranks %s model %s" % (j, k, iranks[:6], mranks[:6]))
+    # ---- the cost of every reported path re-computed by the model (CostModel.v, binary64 instance) from the path's
+    #      states, the objective's state costs and the state costs MinimaxObjective evaluated along each motion:
+    #      bit for bit PathGeometric::cost(objective) and PathGeometric::length()
+    import struct
+    from spaces_common import Space, parse_nested, cq
+    SPACES = {"R2": Space("RV", bounds=[(0.0, 1.0)] * 2), "R3": Space("RV", bounds=[(0.0, 1.0)] * 3),
+              "SE2": Space("CO", subs=[(1.0, Space("RV", bounds=[(0.0, 1.0)] * 2)), (0.5, Space("SO2"))])}
+    def fl(h): return struct.unpack("<d", struct.pack("<Q", int(h, 16)))[0]
+    seen_paths = set(); todo = []
+    for (j, k, si_, raw) in costcases:
+        spn, objn = j.split()[2], j.split()[5]
+        if spn not in SPACES: continue
+        key = (spn, objn, raw["PTS"], raw.get("MM", ""))
+        if key in seen_paths: continue
+        seen_paths.add(key)
+        w = raw["PTS"].split(); n, dim = int(w[2]), int(w[3]); vals = [fl(x) for x in w[5:]]
+        if len(vals) != n * dim: continue
+        sc = [fl(x) for x in raw["SC"].split()[3:]]
+        tb = raw["TRUE"].split()[3:]
+        mm = None
+        if objn == "clearance":
+            mm = [[fl(x) for x in part.split()] for part in raw.get("MM", "MM 0 :").split(":", 1)[1].split(";") if part.split()]
+        todo.append((j, k, si_, spn, objn, [vals[a * dim:(a + 1) * dim] for a in range(n)], sc, mm, tb))
+    ncost = ncost_bad = 0; tcost = 0.0
+    for a in range(0, len(todo), 40):
+        part = todo[a:a + 40]
+        src = "From Coq Require Import List Floats. From OmplV Require Import SpacesModel SpacesFloat CostModel. Import ListNotations.\nLocal Open Scope float_scope.\nEval vm_compute in [\n"
+        items = []
+        for (j, k, si_, spn, objn, pts, sc, mm, tb) in part:
+            sp = SPACES[spn]
+            ptl = "[%s]" % "; ".join("(%s, %s)" % (sp.state_coq(pv), cq(cv)) for pv, cv in zip(pts, sc))
+            third = ("mm_path FlA (fun a b => PrimFloat.ltb b a) infinity [%s]" % "; ".join("[%s]" % "; ".join(cq(v) for v in ev) for ev in mm)) if mm is not None else "0"
+            items.append("[cost_length FlA _ (distance FlA %s) %s; cost_integral FlA _ (distance FlA %s) %s; %s]" % (sp.coq(), ptl, sp.coq(), ptl, third))
+        src += ";\n".join(items) + "].\n"
+        path = os.path.join(c.outdir, "cases_cost_%d.v" % a)
+        open(path, "w").write(src)
+        rc5, o5, e5, s5 = vf.sh("timeout 1500 coqc -Q %s OmplV %s" % (vf.COQ, path), timeout=1600); tcost += s5
+        if rc5 != 0: c.broken.append("model evaluation (coqc %s) failed: %s" % (os.path.basename(path), (e5 or o5)[-300:])); break
+        for (j, k, si_, spn, objn, pts, sc, mm, tb), res in zip(part, parse_nested(o5)):
+            ncost += 1
+            def bits_(x): return "%016x" % struct.unpack("<Q", struct.pack("<d", x))[0]
+            mlen, mint, mmm = res
+            want = {"length": mlen, "integral": mint, "clearance": mmm}[objn]
+            ok = bits_(mlen) == tb[1] and bits_(want) == tb[0]
+            if len(pts) == 0: ok = True
+            if not ok:
+                ncost_bad += 1; ndiff += 1
+                if first_diff is None: first_diff = ([], "cost of the solution %d reported by '%s' (solve %d): PathGeometric::cost = %s, length = %s; CostModel (%s) = %s, length %s" % (si_, j, k, tb[0], tb[1], objn, bits_(want), bits_(mlen)))
+    c.step("correspond:model-path-costs", "coqc cases_cost_*.v (CostModel on binary64: %d distinct reported paths)" % ncost, tcost, ncost_bad == 0)
+    c.cov.update({"path_costs_recomputed_by_model": ncost, "path_cost_disagreements": ncost_bad})
     c.cov.update({"planner_runs": len(pjobs), "planner_histogram": dict(pstats), "planner_failures_by_kind": dict(pfail)})
     c.cov["evaluations"] += len(pjobs) * 3
     c.assumptions[:] = [a for a in c.assumptions if "planner-level clauses" not in a] + ["planner-level clauses are checked per run on 20 optimizing planners x {path length, state-cost integral, max-min clearance} x 3 consecutive solves, not proved; weighted multi-objective and mechanical work are not exercised"]
